@@ -165,6 +165,7 @@ func runCheck(prop, repo, verif, tier string) int {
 	trusted := map[string]bool{"A-SOLVER": true, "A-GOVC": true, "A-GO": true}
 	knownOblSeen := map[string]bool{}
 	var deadNotes []string
+	var partial []string
 	for _, r := range reps {
 		fc := w.CS.Funcs[r.Key]
 		if fc != nil && fc.Trusted {
@@ -193,6 +194,9 @@ func runCheck(prop, repo, verif, tier string) int {
 				trusted["A-SCALE"] = true
 			} else if r.Ex.arith == "order" {
 				trusted["A-ORDER"] = true
+			}
+			if r.Ex.skipped > 0 {
+				partial = append(partial, fmt.Sprintf("%s: only %s obligations are generated (%d others not covered)", r.Key, strings.Join(fc.Only, ","), r.Ex.skipped))
 			}
 			for _, n := range r.Ex.notes {
 				if strings.Contains(n, "A-DIV") {
@@ -301,6 +305,7 @@ func runCheck(prop, repo, verif, tier string) int {
 		"solver_time_s":            round3(solverTime),
 		"assumed_contracts":        dedup(assumedContracts),
 		"unverified_functions":     unverified,
+		"partially_covered_functions": partial,
 		"known_finding_obligations": sortedBoolKeys(knownOblSeen),
 		"vacuity":                  map[string]interface{}{"covers": covers, "sat": coversSat, "declared_dead": deadNotes},
 		"modelling_notes":          dedup(notes),
